@@ -617,6 +617,9 @@ func oracleC11(src string, mask int) string {
 		var pruned parser.Node
 		calls := 0
 		fail := ""
+		// history: a walk over another program that its visitor abandons by panicking (the caller
+		// recovers) must leave nothing behind for the walk that follows
+		abandonWalk()
 		func() {
 			defer func() {
 				if r := recover(); r != nil {
@@ -685,6 +688,28 @@ func oracleC11(src string, mask int) string {
 		}
 	}
 	return "ok"
+}
+
+var abandonedProgram []parser.Statement
+
+// abandonWalk starts a walk over a fixed other program and gives it up after a few visits.
+func abandonWalk() {
+	if abandonedProgram == nil {
+		abandonedProgram, _ = parser.Parse("Stale | where s1 == s2 + s3 | join (Other | where s4) on s5 | extend s6 = f(s7, s8)")
+	}
+	for _, st := range abandonedProgram {
+		func() {
+			defer func() { _ = recover() }()
+			k := 0
+			parser.Walk(st, func(n parser.Node) bool {
+				k++
+				if k == 3 {
+					panic("abandoned")
+				}
+				return true
+			})
+		}()
+	}
 }
 
 func init() {
